@@ -925,7 +925,10 @@ class TestClientRecorder(BaseOperationRecorder):
                             http_response.headers[hdr_name]
             tc_http_response['headers'] = tc_response_headers
             if http_response.payload is not None:
-                data = http_response.payload.decode('utf-8')
+                # The response may be ill-formed UTF-8; recording it must not
+                # fail the operation.
+                data = http_response.payload.decode(
+                    'utf-8', errors='backslashreplace')
                 data = data.replace('><', '>\n<').strip()
             else:
                 data = None
